@@ -726,6 +726,12 @@ static int _parse_inline(qaconf_t *qaconf, FILE *fp, uint8_t flags,
             for (; (*wp1 == ' ' || *wp1 == '\t'); wp1++)
                 ;
 
+            // Blanks in front of the closing bracket of a section are not
+            // an (empty) argument.
+            if (*wp1 == '\0' && cbdata->argc > 0) {
+                break;
+            }
+
             // Quote handling
             int qtmark = 0;  // 1 for singlequotation, 2 for doublequotation
             if (*wp1 == '\'') {
